@@ -291,7 +291,75 @@ def adjustDefinedName (sheet : Str) (e : Edit) (names : List Str) (d : Str × Li
 def adjustDefinedNames (sheet : Str) (e : Edit) (names : List Str) (ds : List (Str × List Token)) : List Str :=
   ds.map (adjustDefinedName sheet e names)
 
+/-! #### shared formulas: `parseSharedFormula` / `shiftCell` (cell.go), used by `getSharedFormula`
+and, since the repair, by `expandSharedFormulas` before every structural edit -/
+
+def joinColon : List Str → Str
+  | [] => []
+  | [a] => a
+  | a :: rest => a ++ [':'] ++ joinColon rest
+
+def okOr {α : Type} (d : α) : Except Err α → α
+  | .ok a => a
+  | .error _ => d
+
+/-- one `:`-separated part of an operand in `shiftCell` -/
+def shiftPart (dCol dRow : Int) (cell : Str) : Str :=
+  let t := cell.filter (fun c => !isDollar c)
+  let pre := firstIdx isDollar cell == some 0          -- strings.Index(cell, "$") == 0 / HasPrefix
+  match cellNameToCoordinates t with
+  | .ok (c, r) =>
+    let absCol := pre
+    let absRow := match lastIdx isDollar cell with | some i => decide (0 < i) | none => false
+    if !absCol && !absRow then
+      -- `parts[j], _ = CoordinatesToCellName(…)`: the error is dropped, and on a column error the
+      -- function still returns the row digits
+      (match coordinatesToCellName (c + dCol) (r + dRow) false with
+       | .ok nm => nm
+       | .error _ =>
+         if c + dCol < 1 || r + dRow < 1 || r + dRow > (Facts.TotalRows : Int) then [] else itoaInt (r + dRow))
+    else if !absCol && absRow then okOr [] (columnNumberToName (c + dCol)) ++ ['$'] ++ itoaInt r
+    else if absCol && !absRow then ['$'] ++ okOr [] (columnNumberToName c) ++ itoaInt (r + dRow)
+    else cell
+  | .error _ =>
+    match columnNameToNumber t with
+    | .ok c =>
+      if !pre then okOr [] (columnNumberToName (c + dCol))
+      else cell    -- strconv.Atoi of letters fails
+    | .error _ =>
+      match atoi t with
+      | some r => if !pre then itoaInt (r + dRow) else cell
+      | none => cell
+
+/-- `shiftCell` -/
+def shiftCell (dCol dRow : Int) (val : Str) : Str :=
+  joinColon ((splitColon val).map (shiftPart dCol dRow))
+
+/-- `efp.Parser.Render` on one token (text is NOT re-escaped by efp) -/
+def efpRender (t : Token) : Str :=
+  if t.ty = .function ∧ t.sub = .start then t.tv ++ ['(']
+  else if t.ty = .function ∧ t.sub = .stop then [')']
+  else if t.ty = .subexpr ∧ t.sub = .start then ['(']
+  else if t.ty = .subexpr ∧ t.sub = .stop then [')']
+  else if t.ty = .operand ∧ t.sub = .text then ['"'] ++ t.tv ++ ['"']
+  else if t.ty = .infix ∧ t.sub = .intersect then [' ']
+  else t.tv
+
+/-- `parseSharedFormula`: the text of the cell at offset `(dCol,dRow)` from the master cell -/
+def parseSharedFormula (dCol dRow : Int) (toks : List Token) : Str :=
+  (toks.map (fun t =>
+    if t.ty = .operand ∧ t.sub = .range then efpRender { t with tv := shiftCell dCol dRow t.tv }
+    else efpRender t)).flatten
+
 end Impl
+
+/-- the indices `a, a+1, …, b` -/
+def idxs (a b : Nat) : List Nat := List.range' a (b + 1 - a)
+
+/-- the cells `(col,row)` of a rectangle in row-major order (the order in which calc.go's range
+resolution lists them) -/
+def cellsOf (c1 r1 c2 r2 : Nat) : List (Nat × Nat) :=
+  (idxs r1 r2).flatMap (fun row => (idxs c1 c2).map (fun col => (col, row)))
 
 namespace Spec
 
@@ -496,6 +564,14 @@ def expectSlide (sheet sheetN : Str) (kr : Bool) (e : Edit) (tv : Str) : Option 
       let r' := slideRef kr e r
       if inGrid r' then some ((match pfx with | some p => p ++ ['!'] | none => []) ++ render r') else none
   else some tv
+
+/-- the cells of a reference in the order calc.go's `rangeResolver` reads them: corners sorted
+(`sortCoordinates`), then row by row, left to right. Only cells and ranges (whole rows/columns are
+clipped to the sheet's used area by calc.go and are not enumerated here). -/
+def refCells : Ref → List (Nat × Nat)
+  | .cell c r => [(c.n, r.n)]
+  | .range c1 r1 c2 r2 => cellsOf (min c1.n c2.n) (min r1.n r2.n) (max c1.n c2.n) (max r1.n r2.n)
+  | _ => []
 
 end Spec
 
